@@ -17,13 +17,16 @@ ASSUMPTIONS = ['divisor base coefficients bounded away from 0 (|y_0| >= 0.5)', '
 
 OPS = {'add': operator.add, 'sub': operator.sub, 'mul': operator.mul, 'div': operator.truediv}
 IOPS = {'add': operator.iadd, 'sub': operator.isub, 'mul': operator.imul, 'div': operator.itruediv}
-SCALARS = ['int', 'float', 'complex', 'np.float64', 'np.complex128', 'np.int64', 'np.float32', 'np.float16', 'np.complex64']
+SCALARS = ['int', 'float', 'complex', 'np.float64', 'np.complex128', 'np.int64', 'np.float32', 'np.float16', 'np.complex64', 'bigint']
 
 
 def mk_scalar(rng, kind, nz=False):
     v = rng.choice([2, -3, 1, 4]) if kind in ('int', 'np.int64') else rng.choice([0.5, -1.25, 1.5, 2.0, -0.75])
     if kind == 'int':
         return int(v)
+    if kind == 'bigint':
+        # a Python int beyond 64 bits (exactly representable as a float): NumPy treats it as a float constant
+        return rng.choice([2 ** 64, -(2 ** 70), 3 * 2 ** 80, 2 ** 63])
     if kind == 'np.int64':
         return np.int64(v)
     if kind == 'float':
@@ -114,7 +117,7 @@ def obj(a):
         return np.array(a['v'], dtype=a['dt']) if a.get('dt') else np.array(a['v'])
     v = a['v']
     sk = a.get('sk')
-    if sk == 'int':
+    if sk in ('int', 'bigint'):
         return int(v)
     if sk == 'float':
         return float(v)
@@ -220,6 +223,8 @@ def run_case(ctx, case):
         return 'exception-%s: raised %s' % (tag, z)
     if cplx_in and not np.iscomplexobj(z):
         return 'dtype-%s: real/complex mix returned dtype %s (imaginary part dropped)' % (tag, z.dtype)
+    if z.dtype == object:
+        return 'dtype-%s: the result holds Python objects (dtype object) instead of numbers' % tag
     if not close(z, m):
         return 'mismatch-%s: differs from exact power-series arithmetic, max diff %s' % (tag, maxdiff(z, m))
     dm = model_dtype(ctx, case)
@@ -247,7 +252,7 @@ def model_dtype(ctx, case):
         kind, dt = 'ndarray', dtname(np.array(o['v']).dtype)
     else:
         sk = o['sk']
-        kind = {'int': 'pyint', 'float': 'pyfloat', 'complex': 'pycomplex'}.get(sk, 'npscalar')
+        kind = {'int': 'pyint', 'bigint': 'pyint', 'float': 'pyfloat', 'complex': 'pycomplex'}.get(sk, 'npscalar')
         dt = {'np.float64': 'f64', 'np.complex128': 'c128', 'np.complex64': 'c128', 'np.int64': 'i64'}.get(sk, 'f64')
     req = {'op': 'dtype', 'aop': case['op'], 'self': dtname(np.array(u['v']).dtype), 'kind': kind, 'dt': dt, 'refl': refl}
     r = ctx.model.ask(req)
@@ -279,8 +284,10 @@ def gen_pow(rng, tier):
             v = rng.choice([0.5, 1.5, -0.5, 2.0, 3.0, 2.5])
         case['r'] = {'k': 'S', 'sk': sk, 'v': v}
     elif form == 'scalar_base':
-        sk = rng.choice(['int', 'float', 'np.float64', 'np.int8', 'np.uint8', 'np.int16', 'np.float16', 'np.float32'])
+        sk = rng.choice(['int', 'float', 'np.float64', 'np.int8', 'np.uint8', 'np.int16', 'np.float16', 'np.float32', 'bigint'])
         case['r'] = {'k': 'S', 'sk': sk, 'v': rng.choice([2, 3]) if sk in ('int', 'np.int8', 'np.uint8', 'np.int16') else rng.choice([0.5, 1.5, 2.5])}
+        if sk == 'bigint':
+            case['r']['v'] = rng.choice([2 ** 64, 10 ** 30])         # a Python int beyond 64 bits
     else:
         y = rand_coeffs(rng, (D, P) + shape, -1, 1)
         case['y'] = y
@@ -389,7 +396,61 @@ def nontrivial(case):
     return case['D'] >= 2 and hi and differ
 
 
+# ---- the exported convenience class algopy.UTP (UTPM with another constructor) ---------------------------------------
+UTP_FNS = {
+    'add': lambda a, b: a + b, 'sub': lambda a, b: a - b, 'mul': lambda a, b: a * b, 'div': lambda a, b: a / b,
+    'floordiv': lambda a, b: a // b, 'pow2': lambda a, b: a ** 2, 'pow0.5': lambda a, b: a ** 0.5, 'powm1': lambda a, b: a ** -1,
+    'powu': lambda a, b: a ** b, 'neg': lambda a, b: -a, 'radd': lambda a, b: 1.5 + a, 'rsub': lambda a, b: 1.5 - a,
+    'rmul': lambda a, b: 1.5 * a, 'rdiv': lambda a, b: 1.5 / a, 'rpow': lambda a, b: 1.5 ** a, 'mulc': lambda a, b: a * 1.5,
+    'divc': lambda a, b: a / 1.5, 'mixed-mul': lambda a, b: algopy.UTPM(a.data) * b, 'mixed-div': lambda a, b: algopy.UTPM(a.data) / b,
+}
+
+def utp_class_case(rng, fn, vectorized):
+    D, P = rng.randint(1, 4), (rng.randint(1, 3) if vectorized else 1)
+    shape = rand_shape(rng, 2, 3)
+    x = rand_coeffs(rng, (D, P) + shape, -2, 2)
+    y = rand_coeffs(rng, (D, P) + shape, -2, 2)
+    x[0] = c01.gen_x0(rng, 'pos', (P,) + shape, False)
+    y[0] = c01.gen_x0(rng, 'pos', (P,) + shape, False)
+    return {'op': 'utpclass', 'fn': fn, 'vectorized': vectorized, 'D': D, 'P': P, 'x': x, 'y': y}
+
+
+def utp_class_fails(case):
+    """operators on algopy.UTP objects (documented as UTPM with a friendlier constructor) against the same operators on UTPM"""
+    x, y = np.array(case['x'], dtype=float), np.array(case['y'], dtype=float)
+    f = UTP_FNS[case['fn']]
+
+    def mk(a):
+        return algopy.UTP(a.copy(), vectorized=True) if case['vectorized'] else algopy.UTP(a[:, 0].copy())
+    try:
+        want = f(UTPM(x.copy()), UTPM(y.copy()))
+        ux, uy = mk(x), mk(y)
+        if ux.data.shape != x.shape:
+            return 'utpclass-constructor: UTP(...).data has shape %s, expected %s' % (ux.data.shape, x.shape)
+        got = f(ux, uy)
+    except Exception as ex:
+        return 'utpclass-exception-%s: %s' % (case['fn'], type(ex).__name__ + ':' + str(ex)[:80])
+    if got.data.shape != want.data.shape:
+        return 'utpclass-layout-%s: result coefficient array has shape %s, the same operation on UTPM gives %s' % (case['fn'], got.data.shape, want.data.shape)
+    if not close(got.data, want.data, 1e-12):
+        return 'utpclass-value-%s: coefficients differ from the same operation on UTPM' % case['fn']
+    return None
+
+
+def systematic_utp_class(ctx):
+    for fn in sorted(UTP_FNS):
+        for vectorized in (False, True):
+            case = utp_class_case(ctx.rng, fn, vectorized)
+            ctx.evaluations += 1
+            ctx.count('utpclass=' + fn)
+            res = utp_class_fails(case)
+            if res is not None:
+                ctx.report(case, 'failure', res)
+
+
 def dispatch(ctx, case):
+    if case.get('op') == 'utpclass':
+        return utp_class_fails(case)
     if case.get('form') == 'inplace-view':
         return inplace_view_fails(case)
     if case.get('op') == 'pow':
@@ -408,6 +469,7 @@ def run(ctx):
             ctx.report(case, 'failure', f)
     systematic_pow(ctx)
     systematic_const_dtypes(ctx)
+    systematic_utp_class(ctx)
     for i in range(n):
         case = gen_pow(ctx.rng, ctx.tier) if i % 6 == 5 else gen_case(ctx.rng, ctx.tier)
         ctx.evaluations += 1
